@@ -13,15 +13,16 @@
     well-formedness statement is false exactly there (`duration_wellformed_false_at_zero`);
   * time: every aware time with a whole-minute offset in (-24h, +24h) (`time_roundtrip`);
   * date: every date 0001-01-01 .. 9999-12-31 (`date_roundtrip`);
-  * datetime: every aware datetime whose local date is in range (`datetime_text_roundtrip`); the
-    model's `umDatetime` additionally answers `unsupported` when the UTC instant leaves year
-    1..9999 (`datetime_unmarshal`, refuted without that hypothesis at `datetime_edge`);
+  * datetime: every aware datetime whose local date is in range, including those whose UTC
+    instant falls outside year 1..9999 (`datetime_text_roundtrip`, `datetime_unmarshal`);
   * the calendar law both date theorems rest on is itself proved (`calendar_law`);
-  * `LeafLaws` for `pyLeaves` on S1 = {int, bool, float, str, date, time, timedelta}, so that
-    C01's `roundtrip` applies to annotations over these scalars (`roundtrip_temporal`).
+  * `LeafLaws` and `PassLaws` for `pyLeaves` on S1 = {int, bool, float, str, date, datetime, time,
+    timedelta}, so that C01's `roundtrip` and C13's `passthroughG` apply to annotations over these
+    scalars (`roundtrip_temporal`, `passthrough_temporal`).
 -/
 import TypelibModel.Lemmas.TemporalText
 import TypelibModel.Props.C01
+import TypelibModel.Props.C13
 namespace Typelib.C04
 open Typelib
 
@@ -132,72 +133,66 @@ theorem datetime_text_roundtrip {us off : Int} (h : inDateRange (localOrd us off
     parseTemporal? (datetimeText us off) = some (.dateTime us (some off)) :=
   datetime_parse calLaw h hm hlo hhi
 
-/-- Full statement (without `hi`) is false for the model's `umDatetime`: see `datetime_edge`. -/
+/-- `unmarshal(datetime, dt.isoformat()) == dt` with the same offset, for every valid aware datetime. -/
 theorem datetime_unmarshal (today : Int) {us off : Int} (h : inDateRange (localOrd us off) = true)
-    (hm : off % 60 = 0) (hlo : -86400 < off) (hhi : off < 86400) (hi : instantOk us = true) :
+    (hm : off % 60 = 0) (hlo : -86400 < off) (hhi : off < 86400) :
     umDatetime today (.str (datetimeText us off)) = .ok (.datetime us off) :=
-  umDatetime_rt calLaw today h hm hlo hhi hi
+  umDatetime_rt calLaw today h hm hlo hhi
 
-/-- 0001-01-01T00:00:00+01:00: a valid aware datetime (`hasScalar`) whose UTC instant is in year 0.
-    The text is parsed back exactly, but the model's `umDatetime` answers `unsupported` (its
-    `instantOk` guard is applied to text inputs as well); the real code round-trips it. -/
-theorem datetime_edge (today : Int) :
-    hasScalar .datetime (.datetime (-62135600400000000) 3600) = true
-      ∧ parseTemporal? (datetimeText (-62135600400000000) 3600)
-          = some (.dateTime (-62135600400000000) (some 3600))
-      ∧ umDatetime today (.str (datetimeText (-62135600400000000) 3600)) = .error .unsupported := by
-  have hp := datetime_text_roundtrip (us := -62135600400000000) (off := 3600) (by decide) (by decide)
-    (by decide) (by decide)
-  refine ⟨by decide, hp, ?_⟩
-  have hi : instantOk (-62135600400000000) = false := by decide
-  simp [umDatetime, secondsOf?, textOf?, hp, hi]
+/-- 0001-01-01T00:00:00+01:00: a valid aware datetime whose UTC instant lies in year 0; it round-trips
+    (as in the real code). -/
+example (today : Int) : hasScalar .datetime (.datetime (-62135600400000000) 3600) = true
+    ∧ instantOk (-62135600400000000) = false
+    ∧ umDatetime today (.str (datetimeText (-62135600400000000) 3600))
+        = .ok (.datetime (-62135600400000000) 3600) :=
+  ⟨by decide, by decide, datetime_unmarshal today (by decide) (by decide) (by decide) (by decide)⟩
 
 example : datetimeText (-62135600400000000) 3600 = "0001-01-01T00:00:00+01:00".toList := by decide
 example : datetimeText 1700000000123456 (-34200) = "2023-11-14T12:43:20.123456-09:30".toList := by decide
 
 /-! ### Leaf laws on S1 and the composite round trip -/
 
-/-- `LeafLaws.rt` for the executable leaves on S1 = S0 ∪ {date, time, timedelta}. -/
+/-- `LeafLaws.rt` for the executable leaves on S1 = S0 ∪ {date, datetime, time, timedelta}. -/
 theorem leaf_roundtrip (env : Env) (today : Int) : ∀ s v, S1 s = true → hasScalar s v = true →
     ∃ m, (pyLeaves env today).mar s v = .ok m ∧ (pyLeaves env today).um s m = .ok v
       ∧ hashable m = true ∧ decode m ≠ .none :=
   pyLeaves_rt_temporal calLaw env today
 
-/-- The datetime leaf, under the extra hypothesis the model needs. -/
-theorem leaf_roundtrip_datetime (env : Env) (today : Int) {us off : Int}
-    (hv : hasScalar .datetime (.datetime us off) = true) (hi : instantOk us = true) :
-    ∃ m, (pyLeaves env today).mar .datetime (.datetime us off) = .ok m
-      ∧ (pyLeaves env today).um .datetime m = .ok (.datetime us off)
-      ∧ hashable m = true ∧ decode m ≠ .none := by
-  simp only [hasScalar, Bool.and_eq_true, decide_eq_true_eq, beq_iff_eq] at hv
-  obtain ⟨⟨⟨h1, h2⟩, h3⟩, h4⟩ := hv
-  exact datetime_leaf_rt calLaw env today h1 h2 h3 h4 hi
-
-/-- The `LeafLaws.rt` shape fails for `.datetime` as `hasScalar` stands (model guard, not /repo). -/
-theorem leaf_roundtrip_datetime_false (env : Env) (today : Int) :
-    ¬ ∀ v, hasScalar .datetime v = true →
-      ∃ m, (pyLeaves env today).mar .datetime v = .ok m ∧ (pyLeaves env today).um .datetime m = .ok v := by
-  intro h
-  obtain ⟨hs, _, hu⟩ := datetime_edge today
-  obtain ⟨m, h1, h2⟩ := h _ hs
-  simp only [pyLeaves, pyMar, marTemporal, isoText, Except.ok.injEq] at h1
-  subst h1
-  simp only [pyLeaves, pyUm] at h2
-  rw [hu] at h2
-  cases h2
+/-- Pass-through of valid scalar values on S1. -/
+theorem leaf_passthrough (env : Env) (today : Int) : ∀ s v, S1 s = true → hasScalar s v = true →
+    (pyLeaves env today).um s v = .ok v :=
+  pyLeaves_pass_temporal env today
 
 theorem leafLaws_S1 (env : Env) (today : Int) (h : ∀ c i, memberValue env c i = none) :
     LeafLaws S1 env (pyLeaves env today) :=
   { rt := leaf_roundtrip env today
     enumRT := by intro c i w hw; rw [h c i] at hw; cases hw }
 
-/-- C01's round trip over annotations whose scalars are int, bool, float, str, date, time,
+/-- C01's round trip over annotations whose scalars are int, bool, float, str, date, datetime, time,
     timedelta (any composite constructor, class flavour, wrapper, recursion; no enum). -/
 theorem roundtrip_temporal (env : Env) (today : Int) (hE : wfEnv S1 env = true)
     (hne : ∀ c i, memberValue env c i = none) (n : Nat) (t : Ty) (v : Val)
     (hwf : wfTy S1 env t = true) (hty : hasType env n t v = true) :
     ∃ m, mar env (pyLeaves env today) n t v = .ok m ∧ um env (pyLeaves env today) n t m = .ok v :=
   C01.roundtrip S1 env (pyLeaves env today) hE (leafLaws_S1 env today hne) n t v hwf hty
+
+theorem passLaws_S1 (env : Env) (today : Int) (hns : ∀ c, isStrMixin env c = false) :
+    C13.PassLaws S1 hasScalar (fun vs v => Val.exactMem v vs) env (pyLeaves env today) :=
+  { leafPass := leaf_passthrough env today
+    litPass := fun vs v hp hm => (C01.literal_pyMem env vs v hp hm).1
+    enumPass := C13.enumPass_of_noStrMixin env _ hns }
+
+/-- C13's pass-through over annotations whose scalars are in S1 (enums without str mix-in). -/
+theorem passthrough_temporal (env : Env) (today : Int) (hE : wfEnv S1 env = true)
+    (hns : ∀ c, isStrMixin env c = false) (n : Nat) (t : Ty) (v : Val)
+    (hwf : wfTy S1 env t = true) (hty : hasType env n t v = true) :
+    um env (pyLeaves env today) n t v = .ok v :=
+  C13.passthroughG S1 hasScalar (fun vs v => Val.exactMem v vs) env (pyLeaves env today) hE
+    (passLaws_S1 env today hns) n t v hwf hty
+
+example : wfTy S1 [] (.coll .list (.scalar .datetime)) = true := by decide
+example : hasType [] 3 (.coll .list (.scalar .datetime)) (.list [.datetime (-62135600400000000) 3600]) = true := by
+  decide
 
 /-- Non-vacuity: `dict[str, tuple[timedelta, ...]]` with a negative sub-second duration. -/
 example : wfTy S1 [] (.dict (.scalar .str) (.coll .vartuple (.scalar .timedelta))) = true := by decide
